@@ -13,7 +13,7 @@ import sys
 
 import numpy as np
 
-from common import REPO, VERIF, coq_bool, coq_list, coq_nat, qc, qc_list, qc_mat, sh
+from common import REPO, VERIF, source_pins, coq_bool, coq_list, coq_nat, qc, qc_list, qc_mat, sh
 
 TRUSTED_BASE = [
     "Coq 8.16.1 kernel + coqc (vm_compute only in the correspondence shards and the non-vacuity examples; no native_compute)",
@@ -51,6 +51,29 @@ SLICE = ["lib/Sums.v", "lib/QcInst.v", "C13/Base.v", "C13/Model.v", "C13/Lemmas.
          "C13/Corr.v", "gen/C13_Gen.v"]
 PRE = ("From Coq Require Import ZArith NArith QArith Qcanon List Bool.\nFrom AV.lib Require Import Sums QcInst.\n"
        "From AV.C13 Require Import Base Model Corr.\nFrom AV.gen Require Import C13_Gen.\nImport ListNotations.\n")
+
+# Source pins (BUILDING.md "Source pins for hand-written models"): every function the hand model of
+# coq/C13/Model.v, the Qc instance (energy_eqb, Qcltb as Python `<`), the harness' band builder and the
+# from_end_points oracle premise were written from.  NOT listed because tr/translate_c13.py regenerates
+# them: Image._tau_xl_x_xr, Image.get_force, CImage.get_force, Images.increment; NOT listed because the
+# translator pins their full normalised text (exit status 3): derivative, NEB._interpolated_species,
+# NEB._max_atom_distance_between_images, NEB.partition.
+PINS = [("autode/neb/original.py", q) for q in (
+    "Image.__init__", "Image.gradient",                     # image record: k, flat gradient (getter; setter: translator needle)
+    "Images.__init__", "Images.append_species",             # min_k/max_k defaults + assert max_k > min_k; Image(species, k=init_k)
+    "Images.coords", "Images.set_coords",                   # flat coordinate vector <-> images (optimiser state)
+    "total_energy", "energy_gradient", "_idpp_energy_gradient",   # only interior images re-evaluated; increment() called per step
+    "NEB.__init__", "NEB.from_list", "NEB.from_end_points", "NEB.idpp_relax", "NEB._minimise",   # the `build` oracle of partition
+    "NEB.max_atom_distance_between_images")] + [
+    ("autode/neb/ci.py", q) for q in ("CImage.__init__", "CImages.__init__", "CImages.increment", "CINEB.__init__")] + [
+    ("autode/neb/idpp.py", q) for q in ("IDPP.__init__", "IDPP._set_distance_matrices", "IDPP._distance_matrix")] + [
+    ("autode/path/path.py", q) for q in ("Path.__init__", "Path.energies", "Path.peak_idx", "Path.is_saddle")] + [
+    # Python `<`, `max`, `-`, `*`, `==` on energies / force constants as modelled by ltb / pmax / field ops / energy_eqb
+    ("autode/values.py", q) for q in ("Value.__lt__", "Value.__gt__", "Value.__sub__", "Value.__add__", "Value.__mul__",
+                                      "Value.__rmul__", "Value._other_same_units", "Value._like_self_from_float", "Energy.__eq__")] + [
+    ("autode/atoms.py", q) for q in ("Atom.translate", "Atom.coord", "AtomCollection.coordinates")] + [
+    ("autode/species/species.py", q) for q in ("Species.energy", "Species.copy")]
+
 
 BUILD_ORDER = ["C13/Base.v", "gen/C13_Gen.v", "C13/Model.v", "C13/Lemmas.v", "C13/Props.v", "C13/Corr.v"]
 
@@ -588,11 +611,34 @@ def oracle_partition(d):
     return fails, (tag, final, calls), info
 
 
+ORACLE_TIME_LIMIT = 40     # seconds per implementation oracle call (the slowest honest case takes ~4 s)
+TIMED_OUT = {}             # kind -> number of calls that hit the limit in this run
+
+
+class OracleTimeout(BaseException):
+    pass
+
+
 def guarded(kind, fn, d, nres):
-    """Run an oracle; an exception raised from inside the repository's code is itself a failure of
-    the property on this input (a harness bug is re-raised)."""
+    """Run an oracle under a time limit; an exception raised from inside the repository's code, or the
+    implementation not returning within the limit (e.g. partition's unbounded while loop never reaching
+    max_delta), is itself a failure of the property on this input (a harness bug is re-raised)."""
+    import signal
+
+    def on_alarm(signum, frame):
+        raise OracleTimeout()
+
+    if TIMED_OUT.get(kind, 0) >= 2:      # two replays of a hang are enough; do not spend the whole budget on it
+        TIMED_OUT[kind] += 1
+        return [] if nres == 1 else ([],) + (None,) * (nres - 1)
+    old_handler = signal.signal(signal.SIGALRM, on_alarm)
+    signal.alarm(ORACLE_TIME_LIMIT)
     try:
         return fn(d)
+    except OracleTimeout:
+        TIMED_OUT[kind] = TIMED_OUT.get(kind, 0) + 1
+        f = [(f"{kind}|implementation-does-not-terminate", f"no result within {ORACLE_TIME_LIMIT} s")]
+        return f if nres == 1 else (f,) + (None,) * (nres - 1)
     except Exception as e:  # noqa
         tb = e.__traceback__
         in_repo = False
@@ -603,6 +649,9 @@ def guarded(kind, fn, d, nres):
             raise
         f = [(f"{kind}|implementation-raises", f"{type(e).__name__}: {str(e)[:300]}")]
         return f if nres == 1 else (f,) + (None,) * (nres - 1)
+    finally:
+        signal.alarm(0)
+        signal.signal(signal.SIGALRM, old_handler)
 
 
 ORACLES = {"band": lambda d: oracle_band(d)[0], "interp": lambda d: oracle_interp(d)[0],
@@ -812,6 +861,10 @@ def run(ctx):
     np.seterr(all="ignore")
     import warnings
     warnings.filterwarnings("ignore")
+    pins_changed = source_pins(ctx.pid, PINS)
+    ctx.cov["source_pins"] = {"pinned": len(PINS), "changed": pins_changed}
+    if pins_changed:
+        ctx.log("source pins changed:", ", ".join(pins_changed))
     # 1. regenerate the model from the repository
     rc, out = sh(["python3", f"{VERIF}/tr/translate_c13.py"], timeout=120)
     ctx.log("translator:", out.strip()[:300])
@@ -930,6 +983,7 @@ def run(ctx):
             "model-vs-impl-partition", key, nontrivial=nontriv)
     ctx.cov["streams"].setdefault("impl-oracle-forces", {})["degenerate_skipped"] = skipped_deg
     ctx.cov["streams"].setdefault("impl-oracle-partition", {})["oracle_not_functional_skipped"] = inconsistent
+    ctx.cov["oracle_timeouts"] = dict(TIMED_OUT)
     ctx.log(f"implementation oracles: {nfail} failures over "
             f"{sum(len(v) for v in cases.values())} generated inputs ({skipped_deg} degenerate-tangent bands skipped)")
     # 4. correspondence
@@ -949,6 +1003,9 @@ def run(ctx):
                           {"kind": "untranslatable", "translator_output": out.strip()[:2000]}, found_input=False)
     if (translated or pinned_changed) and not proofs_ok:
         ctx.proof_failure(info, found_any_input=(nfail > 0))
+    if pins_changed and nfail == 0 and not (corr_bad or corr_err) and proofs_ok and translated:
+        ctx.violation("hand model no longer pinned to the source: " + ", ".join(pins_changed),
+                      {"kind": "source-pin", "changed": pins_changed}, found_input=False)
     if corr_bad or corr_err:
         if nfail == 0:
             ctx.violation("model and implementation disagree (correspondence) and no property-level oracle failed on the implementation",
